@@ -309,4 +309,34 @@ theorem newline_witness :
     parseSourceTypeName "a.b\nc".toList = ("a".toList, "b\nc".toList) := by
   constructor <;> decide
 
+/-! ### the `unwrap` block of the model's `getTypeReference`, case by case -/
+
+theorem gtr_wrapper (p s : Str) (pyd : Bool) (ty : Str) (hl : wrapperTable.lookup s = some ty) :
+    getTypeReference p s true pyd = { ref := .builtin (optionalText ty), imp := .none } := by
+  unfold getTypeReference
+  rw [if_pos rfl, hl]
+
+theorem gtr_duration (p : Str) (pyd : Bool) :
+    getTypeReference p ".google.protobuf.Duration".toList true pyd
+      = { ref := .builtin "timedelta".toList, imp := .none } := by
+  have hl : wrapperTable.lookup ".google.protobuf.Duration".toList = none := by decide
+  unfold getTypeReference
+  rw [if_pos rfl, hl]
+  simp
+
+theorem gtr_timestamp (p : Str) (pyd : Bool) :
+    getTypeReference p ".google.protobuf.Timestamp".toList true pyd
+      = { ref := .builtin "datetime".toList, imp := .none } := by
+  have hl : wrapperTable.lookup ".google.protobuf.Timestamp".toList = none := by decide
+  have hne : ".google.protobuf.Timestamp".toList ≠ ".google.protobuf.Duration".toList := by decide
+  unfold getTypeReference
+  rw [if_pos rfl, hl]
+  simp only [true_and, if_neg hne, if_true]
+
+theorem gtr_other (p s : Str) (pyd : Bool) (hl : wrapperTable.lookup s = none)
+    (h1 : s ≠ ".google.protobuf.Duration".toList) (h2 : s ≠ ".google.protobuf.Timestamp".toList) :
+    getTypeReference p s true pyd = getTypeReference p s false pyd := by
+  unfold getTypeReference
+  simp only [↓reduceIte, hl, true_and, false_and, Bool.false_eq_true, if_neg h1, if_neg h2]
+
 end Bp.SrcTieImpRe
